@@ -14,6 +14,9 @@ Line-protocol driver for the C09 model (`lake build c09drv`). Numbers are hexade
   q ADDRS KEYS FROM TO TOKB TOKP CHUNK LIMIT
                       ADDRS = `-` | a `,` a …; KEYS = `-` | pos `/` pos …, pos = `_` | k `,` k …;
                       TOKB TOKP = `-` `-` for the first page                                   -> ok <b.t.i,…|-> tok=<b>-<p> | err:<e>
+  qp ADDRS KEYS FROM TO TOKB TOKP CHUNK LIMIT BASE PRE
+                      the same with the pre-confirmed blocks PRE = `-` | blk `+` blk …, blk = BLOOM `@` TXS,
+                      numbered BASE+1 …; FROM / TO = ffffffffffffffff is the `pre_confirmed` tag        -> as `q`
   naive ADDRS KEYS FROM TO                                                                    -> <b.t.i,…|->
   dump                P=[persisted window starts] S=<snapshot from/next|none> R=<running from/next> C=[cache keys, MRU first] H=<chain length>
   explain B           which structure serves block B's window in the marked state, and does it
@@ -59,6 +62,14 @@ def tx? (s : String) : Option Tx :=
 
 def txs? (s : String) : Option (List Tx) :=
   if s == "-" then some [] else (splitNonEmpty s "|").mapM tx?
+
+def preBlock? (s : String) : Option Block :=
+  match s.splitOn "@" with
+  | [bl, ts] => do pure ⟨← txs? ts, ← items? bl⟩
+  | _ => none
+
+def pre? (s : String) : Option (List Block) :=
+  if s == "-" then some [] else (s.splitOn "+").mapM preBlock?
 
 def keysF? (s : String) : Option (List (List Nat)) :=
   if s == "-" then some [] else (s.splitOn "/").mapM (fun p => if p == "_" then some [] else natList? p ",")
@@ -154,6 +165,20 @@ def step (st : St) (line : String) : St × String :=
         ({ st with node := r.1 }, showPage r.2)
       | none => (st, "bad-op")
     | _, _, _, _, _, _ => (st, "bad-op")
+  | ["qp", a, k, fr, to, tb, tp, ch, li, base, pre] =>
+    match natList? a ",", keysF? k, hexToNat? fr, hexToNat? to, hexToNat? ch, hexToNat? li, hexToNat? base, pre? pre with
+    | some a, some k, some fr, some to, some ch, some li, some base, some pre =>
+      let tok? : Option (Option Token) :=
+        if tb == "-" && tp == "-" then some none
+        else match hexToNat? tb, hexToNat? tp with
+          | some b, some p => some (some ⟨b, p⟩)
+          | _, _ => none
+      match tok? with
+      | some tok =>
+        let r := queryPre st.cfg st.node ⟨a, k⟩ fr to tok ch li base pre
+        ({ st with node := r.1 }, showPage r.2)
+      | none => (st, "bad-op")
+    | _, _, _, _, _, _, _, _ => (st, "bad-op")
   | ["naive", a, k, fr, to] =>
     match natList? a ",", keysF? k, hexToNat? fr, hexToNat? to with
     | some a, some k, some fr, some to => (st, showEms (naive ⟨a, k⟩ st.node.chain fr to))
